@@ -64,7 +64,6 @@ def fac_strategy(primes, max_e=4, max_len=5, cap=2 ** 62, min_size=1):
                     max_size=max_len).map(lambda it: [list(x) for x in _build_fac(it, cap)])
 
 
-smooth_fac = fac_strategy(PR + MIDPR_S)                   # n < 2^62, every prime factor <= 1e6
 odd_fac = fac_strategy(PR[1:] + MIDPR + BIGPR, cap=2 ** 700)    # odd n, known factorisation, multi-limb
 kron_fac = fac_strategy(PR + BIGPR, cap=2 ** 700, min_size=0)
 pp_fac = st.lists(st.sampled_from([(p, e) for p in PR if p < 72 for e in range(1, 13) if p ** e <= 5000]),
@@ -127,7 +126,7 @@ class C32(Check):
     rule = ("case = batch of argument tuples for one ntheory function. Boxes enumerated completely (a,b in "
             "[-40,40] for gcd/lcm/gcd_ext/division conventions/kronecker; all 0<=a<m<=60, 1<=n<=8 for "
             "nthroot_mod(_list)/is_nth_residue; powermod(_list) with all reduced r/s, |r|<=4, s<=4, m<=30; crt for "
-            "all modulus pairs <=16 (thorough 30) with all remainders; n<=3000 for factor*/prime_factors/mobius/"
+            "all modulus pairs <=14 (thorough 24) with all remainders; n<=2500 for factor*/prime_factors/mobius/"
             "nextprime/primepi/perfect powers; n<=300 primitive roots, ...) judged by brute force; Hypothesis adds "
             "multi-limb arguments (to 2^400) and numbers with constructed factorisation judged by defining "
             "identities. Non-trivial: tuple with a composite or prime-power modulus, a negative argument, or a "
@@ -138,36 +137,21 @@ class C32(Check):
                    "library exceptions (SymEngineException etc.) = declined",
                    "probabilistic/Lehman factor methods are judged only when they claim success",
                    "conventions not fixed by ntheory.h (range of a modular inverse / CRT value / root, order of lists, sign of B1, n<=1 for primitive roots, totient(0)) are not judged"]
-    tiers = {"quick": {"examples": 3200}, "thorough": {"examples": 120000}}
+    tiers = {"quick": {"examples": 2400}, "thorough": {"examples": 80000}}
     exhaustive = True
     min_nontrivial = 50
 
-    # ---------------------------------------------------------------- known defects (auto-detected)
+    # ---------------------------------------------------------------- known findings (tags of known_findings.json)
+    TAG_SIEVE = "ntheory_sieve_overflow"          # KF-C32-01: callers of the prime sieve hit the overflow of Sieve::_extend
+    TAG_POLLARD = "pollard_n4"                    # KF-C32-02: Pollard p-1 / rho with n = 4 divide by zero in mpz_urandomm
+    TAG_NEG = "nthroot_negative_a_mod4"           # KF-C32-03: nthroot_mod(_list) / is_nth_residue, a < 0 and 4 | m
+
     def setup_worker(self, tier):
         self.tier = tier
-        # known defects are detected by probing, so the exclusions disappear by themselves once the library is fixed;
-        # a probe that cannot be run leaves the exclusion on (it only narrows the search)
-        self.kf = {"pm1_n4": True, "neg_a_mod4": True}
-        probe = engine.Driver(self.variant, self.exe, 120.0, env={"ASAN_OPTIONS": engine.ASAN_OPTIONS.replace("symbolize=1", "symbolize=0")})
-        try:
-            try:
-                probe.run([["nt_factor_pollard_pm1", 4, 3, 1]])
-                self.kf["pm1_n4"] = False
-            except (engine.DriverCrash, engine.DriverTimeout, OSError):
-                pass
-            # negative a with 4 | m: `a % 4 == 3` in _nthroot_mod_prime_power uses the truncated C++ remainder
-            try:
-                r = probe.run([["nt_nthroot_mod", -1, 2, 4]])[0]
-                self.kf["neg_a_mod4"] = not (isinstance(r, list) and r[0] is False)
-            except (engine.DriverCrash, engine.DriverTimeout, OSError):
-                pass
-        finally:
-            probe.stop()
 
     # ---------------------------------------------------------------- enumeration
     def enumerate(self, tier):
         T = tier == "thorough"
-        kf = getattr(self, "kf", {})
         g = 60 if T else 40
         yield from batches("gcd", rng2(-g, g))
         yield from batches("lcm", rng2(-g, g))
@@ -176,7 +160,7 @@ class C32(Check):
         for f in ("mod", "quotient", "quotient_mod", "mod_f", "quotient_f", "quotient_mod_f", "divides"):
             yield from batches(f, rng2(-d, d, True))
         yield from batches("mod_inverse", ((a, m) for a in range(-d, d + 1) for m in range(-d, d + 1) if m != 0))
-        cm = 30 if T else 16
+        cm = 24 if T else 14
         yield from batches("crt", (([r1, r2], [m1, m2]) for m1 in range(1, cm + 1) for m2 in range(1, cm + 1)
                                    for r1 in range(m1) for r2 in range(m2)))
         yield from batches("crt", (([r1, r2, r3], [m1, m2, m3]) for m1 in (2, 4, 6, 9) for m2 in (3, 4, 10) for m3 in (5, 6, 8)
@@ -188,16 +172,17 @@ class C32(Check):
             yield from batches(f, ((n,) for n in range(1, nseq)))
         yield from batches("binomial", ((n, k) for n in range(-30, 61) for k in range(0, 41)))
         yield from batches("factorial", ((n,) for n in range(0, 400 if T else 200)))
-        nf = 20000 if T else 3000
+        nf = 20000 if T else 2500
         yield from batches("factor", ((n,) for n in range(2, nf)))
         yield from batches("factor_trial_division", ((n,) for n in range(2, nf)))
         yield from batches("factor_lehman", ((n,) for n in range(21, nf)))
-        lo = 5 if kf.get("pm1_n4", True) else 4
+        lo = 5 if self.tag_active(self.TAG_POLLARD) else 4
         if lo == 5:
-            self.skip("known:pollard_pm1_n4")
-        yield from batches("factor_pollard_pm1", ((n, b, 5) for n in range(lo, nf if T else 2000) for b in ((3, 10, 50) if n < 400 else (10,))))
-        yield from batches("factor_pollard_rho", ((n, 5) for n in range(5, nf)))
-        npf = nf if T else 2000
+            self.skip("known:" + self.TAG_POLLARD, 2)
+        yield from batches("factor_pollard_pm1", ((n, b, 5) for n in range(lo, nf if T else 1500) for b in ((3, 10, 50) if n < 400 else (10,))))
+        # rho documents n > 4: n = 4 must be declined with an exception (judged as declined), not kill the process
+        yield from batches("factor_pollard_rho", ((n, 5) for n in range(lo, nf)))
+        npf = nf if T else 1500
         yield from batches("prime_factors", ((n,) for n in range(-npf, npf) if n))
         yield from batches("prime_factor_multiplicities", ((n,) for n in range(-npf, npf) if n))
         yield from batches("bernoulli", ((n,) for n in range(0, 120 if T else 60)), 10)
@@ -205,7 +190,7 @@ class C32(Check):
         npr = 700 if T else 300
         yield from batches("primitive_root", ((n,) for n in range(2, npr)), 20)
         yield from batches("primitive_root_list", ((n,) for n in range(2, npr)), 20)
-        yield from batches("totient", ((n,) for n in range(1, 5000 if T else 1500)), 50)
+        yield from batches("totient", ((n,) for n in range(1, 5000 if T else 1000)), 50)
         yield from batches("carmichael", ((n,) for n in range(1, 1500 if T else 600)), 20)
         mo = 140 if T else 80
         yield from batches("multiplicative_order", ((a, n) for n in range(1, mo + 1) for a in range(-5, n + 6)), 60)
@@ -221,8 +206,8 @@ class C32(Check):
         nm = 60 if T else 40
         for f in ("nthroot_mod", "nthroot_mod_list", "is_nth_residue"):
             neg = [(a, n, m) for m in range(1, nm + 1) for n in range(1, 7) for a in range(-m - 2, 0)]
-            if kf.get("neg_a_mod4", True):
-                self.skip("known:nthroot_negative_a_mod4", sum(1 for t in neg if t[2] % 4 == 0))
+            if self.tag_active(self.TAG_NEG):
+                self.skip("known:" + self.TAG_NEG, sum(1 for t in neg if t[2] % 4 == 0))
                 neg = [t for t in neg if t[2] % 4 != 0]
             yield from batches(f, neg)
         bs = sorted({(Fraction(r, s).numerator, Fraction(r, s).denominator) for r in range(-4, 5) for s in range(1, 5)})
@@ -245,13 +230,21 @@ class C32(Check):
         yield from batches("nextprime", ((n,) for n in range(-5, nf)))
         yield from batches("probab_prime_p", ((n, 25) for n in range(0, 2 * nf)))
         yield from batches("probab_prime_p", ((n, 25) for n in PSEUDO + BIGPR + MIDPR))
-        yield from batches("primepi", ((n, 1) for n in range(-3, nf if T else 1500)), 40)
+        yield from batches("primepi", ((n, 1) for n in range(-3, nf if T else 800)), 40)
         yield from batches("primepi", ((n, q) for q in (2, 3, 7) for n in range(-7, 400 if T else 150)), 40)
         yield from batches("primorial", ((n, q) for q in (1, 2, 3) for n in range(1, 300)), 60)
 
     # ---------------------------------------------------------------- Hypothesis (large arguments)
     def strategy(self, tier):
-        rems = st.lists(anyint, min_size=2, max_size=4)
+        # while the sieve overflow is a listed known finding, numbers whose factorisation walks the prime sieve past
+        # ~8e5 (and primepi above 1e6) are not generated; otherwise they are generated and judged normally
+        sv = self.tag_active(self.TAG_SIEVE)
+        if sv:
+            self.skip("known:" + self.TAG_SIEVE)
+        mid = MIDPR_S if sv else MIDPR
+        nmax = 10 ** 12 if sv else 4 * 10 ** 12
+        pimax = 10 ** 6 if sv else 2 * 10 ** 6
+        smooth_fac = fac_strategy(PR + mid)                   # n < 2^62, every prime factor <= 1e6
 
         def crt_case(x0, mods, ks, spoil):
             mods = [abs(m) + 1 for m in mods]
@@ -267,7 +260,7 @@ class C32(Check):
                        st.builds(lambda b, e: b ** e, st.integers(2, 30), st.integers(1, 25)))
         ppn = st.one_of(pp, pp.map(lambda v: v + 1), st.integers(2, 2 ** 130))
         semiprime = st.builds(lambda p, q: p * q, st.sampled_from(PR + MIDPR), st.sampled_from(PR + MIDPR))
-        n12 = st.one_of(st.integers(2, 10 ** 12), semiprime, smooth_fac.map(fac_n).filter(lambda v: v > 1))
+        n12 = st.one_of(st.integers(2, nmax), semiprime, smooth_fac.map(fac_n).filter(lambda v: v > 1))
         pollard_n = st.one_of(n12, st.builds(lambda p, q: p * q, st.sampled_from(PR + MIDPR + BIGPR[:8]),
                                              st.sampled_from(PR + MIDPR + BIGPR[:8])))
         prim_n = st.builds(lambda p, k, two: [p, k, two], st.sampled_from(PR[1:] + MIDPR), st.integers(1, 4), st.booleans())
@@ -300,7 +293,7 @@ class C32(Check):
                                                                  st.integers(1, len(OPR) - 1), st.integers(1, 2)),
                                                        st.integers(2, 10 ** 6).map(lambda v: 4 * v))),
             "primitive_root_list_big": st.builds(lambda p, k, two: [p, k, two], st.sampled_from(PR[1:60]), st.integers(1, 2), st.booleans()),
-            "totient_fac": st.tuples(smooth_fac), "carmichael_fac": st.tuples(smooth_fac), "mobius_fac": st.tuples(fac_strategy(PR + MIDPR_S, max_e=2)),
+            "totient_fac": st.tuples(smooth_fac), "carmichael_fac": st.tuples(smooth_fac), "mobius_fac": st.tuples(fac_strategy(PR + mid, max_e=2)),
             "multiplicative_order_fac": st.tuples(st.one_of(st.integers(-10 ** 6, 10 ** 6), big), smooth_fac),
             "legendre": st.tuples(anyint, st.sampled_from(BIGPR + MIDPR + PR[1:])),
             "jacobi_fac": st.tuples(anyint, odd_fac),
@@ -317,7 +310,7 @@ class C32(Check):
             "probab_prime_p": st.tuples(st.one_of(st.sampled_from(BIGPR + MIDPR + PSEUDO), st.integers(0, 10 ** 9),
                                                   st.builds(lambda p, q: p * q, st.sampled_from(BIGPR), st.sampled_from(BIGPR)), bigpos),
                                         st.sampled_from([1, 5, 25])),
-            "primepi": st.tuples(st.integers(-10, 10 ** 6), st.integers(1, 9)),
+            "primepi": st.tuples(st.one_of(st.integers(-10, 10 ** 5), st.integers(-10, pimax)), st.integers(1, 9)),
             "primorial": st.tuples(st.integers(1, 20000), st.integers(1, 9)),
         }
         self.big_names = sorted(table)
